@@ -119,10 +119,10 @@ Theorem C06_meta_passthrough k o cs m :
 Proof. exact (meta_passthrough k o cs m). Qed.
 Print Assumptions C06_meta_passthrough.
 
-(* finding F13: outside [good] (an inlined rule returning a bare Token next to filtered tokens)
+(* finding F23: outside [good] (an inlined rule returning a bare Token next to filtered tokens)
    the faithful model - and the code - lose the filtered tokens' extent *)
 Theorem C06_meta_span_inlined_token_refuted :
-  exists o cs m, f13_tree = PNode None o cs /\ build (PNode None o cs) = SHTree m /\
+  exists o cs m, f23_tree = PNode None o cs /\ build (PNode None o cs) = SHTree m /\
     m_start m = Some (1, 1, 2) /\ first_start (flat_map toks cs) = Some (0, 1, 1).
 Proof. exact meta_span_inlined_token_refuted. Qed.
 Print Assumptions C06_meta_span_inlined_token_refuted.
